@@ -59,10 +59,10 @@ def run(repo: Repo, chk: Check) -> None:
     chk.require_min("shape pairs", 8)
 
 
-def _ctor_fields(repo: Repo, f: Func, cls: Cls) -> t.Dict[str, str]:
+def _ctor_fields(repo: Repo, f: Func, cls: Cls, node: t.Optional[ast.AST] = None) -> t.Dict[str, str]:
     """constructor keyword -> local variable in the reader's return."""
     out: t.Dict[str, str] = {}
-    for r in [n for n in body_nodes(f.node) if isinstance(n, ast.Return)]:
+    for r in [n for n in body_nodes(t.cast(t.Any, node if node is not None else f.node)) if isinstance(n, ast.Return)]:
         v = r.value
         if isinstance(v, ast.Call) and unparse(v.func) in (cls.name, "cls"):
             params = [p.name for p in cls.init_params()]
@@ -101,7 +101,7 @@ def _compare(chk: Check, cls: Cls, fw: Func, fr: Func, w: t.List[Item], r: t.Lis
             wf = a.field or ""
             inner = b.children[0].field if b.children else None
             lists = [k for k, v in ctor.items() if f"self.{k}" == wf]
-            appended = {unparse(n.func.value) for n in body_nodes(fr.node) if isinstance(n, ast.Call) and isinstance(n.func, ast.Attribute) and n.func.attr == "append" and n.args and unparse(n.args[0]) == inner}  # type: ignore[attr-defined]
+            appended = {unparse(n.func.value) for n in body_nodes(t.cast(t.Any, getattr(chk, "_rs_node", None) or fr.node)) if isinstance(n, ast.Call) and isinstance(n.func, ast.Attribute) and n.func.attr == "append" and n.args and unparse(n.args[0]) == inner}  # type: ignore[attr-defined]
             okf = bool(lists) and ctor.get(lists[0]) in appended
             chk.ob("O1", site, okf, f"{where}: elements of {wf} in order" if okf else f"{where}: repeated {wf} has no counterpart in the constructed object")
             del inner
@@ -135,7 +135,8 @@ def shape_agreement(repo: Repo, chk: Check, cls: Cls) -> None:
         if isinstance(call, ast.Call) and any(k.arg == "header" for k in call.keywords) and not any(k.arg == "tag" for k in call.keywords) and cls.name == "KEKRecipientInfo":
             it.tag = "from-header"  # type: ignore[assignment]
     chk.table(f"{cls.name} shape", [i.describe() for i in w])
-    ctor = _ctor_fields(repo, fr, cls)
+    ctor = _ctor_fields(repo, fr, cls, rs.node)
+    chk._rs_node = rs.node  # type: ignore[attr-defined]
     _compare(chk, cls, fw, fr, w, r, ctor, repo)
     for name, stmt in rs.assigned_after_read:
         chk.ob("O1", Site.of(fr, stmt), False, f"{cls.name}.unpack changes '{name}' after reading it: decode(encode(x)) no longer returns the value that was encoded")
